@@ -412,7 +412,7 @@ def fingerprints(P, E, chk, hnr):
             same = any(s_ in ("qmem_cmc + %s * 4" % i_, "qmem_cmc + 4 * %s" % i_, "&qmem_cmc[%s * 4]" % i_) for i_ in idx for s_ in slots)
             if same:
                 verdicts.append(True)
-            elif tys and slots and not any(re.search(r"qmem_cmc\s*\+\s*\w+\s*\*|&qmem_cmc\[", s_) for s_ in slots):
+            elif tys and slots and not any(re.search(r"qmem_cmc\s*\+\s*\w+\s*\*|&qmem_cmc\[\w+\s*\*", s_) for s_ in slots):
                 verdicts.append(None)            # both compared, but through some other addressing of the slots
             else:
                 verdicts.append(False)
